@@ -10,5 +10,7 @@ CONSTANTS
  DevMolsPerFile = FALSE
  DevDirKeep = FALSE
  DevElseKeep = TRUE
+ DevRootFirst = FALSE
+ DevEdgesNewOnly = FALSE
 CHECK_DEADLOCK FALSE
 INVARIANT Same
